@@ -1803,7 +1803,7 @@ Htrunc(int32 aid, int32 trunc_len)
     /* clear error stack and check validity of access id */
     HEclear();
     access_rec = HAatom_object(aid);
-    if (access_rec == (accrec_t *)NULL || !(access_rec->access & DFACC_WRITE))
+    if (access_rec == (accrec_t *)NULL || !(access_rec->access & DFACC_WRITE) || trunc_len < 0)
         HGOTO_ERROR(DFE_ARGS, FAIL);
 
     /* the descriptor of a special element describes its header, not its data:
